@@ -51,6 +51,9 @@ def ops (c : Affine.Crv) : PointOps Pt where
   mkPoint x y := .jac ⟨crvOf c, x, y, 1, some c.n, false⟩
   fromAffine A := match A with
     | .aff Af => .jac (pjFromAffine Af)
-    | A => A        -- INFINITY becomes a `PointJacobi(None, None, None, 1)`: its `x()` is None, as for INFINITY itself
+    | A => A        -- (INFINITY is rejected before: F14) INFINITY would become a `PointJacobi(None, None, None, 1)`: its `x()` is None, as for INFINITY itself
+  isInfObj A := match A with
+    | .infinity => true
+    | _ => false
 
 end Ecdsa.OnCurve
